@@ -49,16 +49,31 @@ impl Ctx {
     }
     /// A reader history with the implementation's observations (kinds sbr, range, zero-copy; plain and short-read inner).
     pub fn coq_reader(&mut self, kind: usize, data: &[u8], cfg: &[u64], obs: &[(Op, Out)], force: bool) {
-        let (model_kind, chunky) = match kind { 0 => (0, false), 1 => (0, true), 2 => (1, false), 3 => (1, true), 4 => (2, false), 5 => (2, true), _ => return };
-        if data.len() > 200 || obs.len() > 80 { return; }
-        // non-default page alignment changes the capacity, the other constructors are not modelled
-        if cfg.get(10).copied().unwrap_or(0) > 1 || cfg.get(11).copied().unwrap_or(0) != 0 { return; }
         let gc = |i: usize, d: u64| cfg.get(i).copied().unwrap_or(d);
-        let cap = gc(0, 8).max(1);
         let dl = data.len() as u64;
+        // the preset constructors whose growth factor the model has (performance_optimized 2.0, low_latency 1.5) and ZeroCopyReader::new:
+        // the same state machines with the preset's numbers (page alignment 4096 divides every preset capacity)
+        let preset: Option<(i128, [i128; 6])> = match kind {
+            11 => match gc(0, 0) % 5 { 1 => Some((0, [131072, 4194304, 1, 4, 4096, 0])), 3 => Some((0, [8192, 262144, 0, 1, 2048, 1])), _ => return },
+            12 => Some((2, [65536, 65536, 1, 2, 8192, 0])),
+            _ => None,
+        };
+        let mut force = force;
+        let preset_cell = format!("reader/{}", super::c13_rd::rkind_name(kind));
+        if preset.is_some() {
+            if *self.uni_used.get(&preset_cell).unwrap_or(&0) >= 40 * self.coq_budget / 2400 || data.len() > 5000 || obs.len() > 80 { return; }
+            force = true;
+        }
+        let (model_kind, chunky) = match kind { 0 => (0, false), 1 => (0, true), 2 => (1, false), 3 => (1, true), 4 => (2, false), 5 => (2, true), 11 => (0, gc(6, 0) != 0), 12 => (2, gc(6, 0) != 0), _ => return };
+        if (preset.is_none() && data.len() > 200) || obs.len() > 80 { return; }
+        // non-default page alignment changes the capacity, the other constructors are not modelled
+        if preset.is_none() && (cfg.get(10).copied().unwrap_or(0) > 1 || cfg.get(11).copied().unwrap_or(0) != 0) { return; }
+        let cap = gc(0, 8).max(1);
         let start = if kind == 3 { gc(7, 0).min(dl) } else { gc(7, 0) };
-        let mut ints: Vec<i128> = vec![cap as i128, gc(1, 0).max(cap) as i128, gc(2, 1) as i128, gc(3, 2) as i128, gc(4, 8192).max(1) as i128, gc(5, 0) as i128,
-            start as i128, gc(8, dl) as i128];
+        let mut ints: Vec<i128> = match preset {
+            Some((_, p)) => vec![p[0], p[1], p[2], p[3], p[4], p[5], 0, dl as i128],
+            None => vec![cap as i128, gc(1, 0).max(cap) as i128, gc(2, 1) as i128, gc(3, 2) as i128, gc(4, 8192).max(1) as i128, gc(5, 0) as i128, start as i128, gc(8, dl) as i128],
+        };
         let chunk = if chunky { gc(6, 1).max(1) as usize } else { 0 };
         let mut out: Vec<i128> = vec![];
         for ((name, n), o) in obs {
@@ -81,6 +96,7 @@ impl Ctx {
                 Out::Unsupported | Out::Flag(..) | Out::Crc(..) | Out::Info(..) => {}
             }
         }
+        if preset.is_some() { *self.uni_used.entry(preset_cell).or_insert(0) += 1; self.sum.dist("coq_preset_reader_histories"); }
         self.coq2(30 + model_kind, chunk, &ints, data, &Some(out), force);
         let _ = json!(null);
     }
